@@ -156,6 +156,28 @@ class Gen:
             nodes = 1 if r.random() < 0.7 else 0
         self.emit("scan %s %s %s %s %s %d %d %d" % (hx(st), hx(lk), le, hx(rk), re_, mx, r2l, nodes))
 
+    def phantom(self, st, pool):
+        """a read that collects node versions, then inserts of absent keys of the covered interval"""
+        r = self.r
+        if r.random() < 0.25:
+            self.emit("phantom_get s %s %s" % (hx(st), hx(r.choice(self.endpoint_keys(st, pool)))))
+            return
+        c = self.endpoint_keys(st, pool)
+        lk, rk = r.choice(c), r.choice(c)
+        le, re_ = r.choice("EIF"), r.choice("EIF")
+        if le != "F" and re_ != "F" and lk > rk:
+            lk, rk = rk, lk
+        if le != "F" and re_ != "F" and lk == rk:
+            le = re_ = "I"
+        if le == "F" and re_ == "E" and rk == b"":
+            re_ = "I"
+        n = len(self.live.get(st, []))
+        mx = r.choice([0, 0, 1, 2, 3, max(n // 2, 1)])
+        r2l = 0
+        if r.random() < 0.15:
+            mx, r2l, re_ = 1, 1, "F"
+        self.emit("phantom s %s %s %s %s %s %d %d %d" % (hx(st), hx(lk), le, hx(rk), re_, mx, r2l, r.choice([1, 2, 4])))
+
     def iscan(self, st, pool, pause_ops=False):
         r = self.r
         c = self.endpoint_keys(st, pool)
@@ -250,6 +272,8 @@ class Gen:
             self.emit("mem %s" % hx(st))
             for _ in range(6):
                 self.scan(st, pool)
+            for _ in range(4):
+                self.phantom(st, pool)
             self.iscan(st, pool)
             live = sorted(self.live[st])
             dm = r.choice(["left", "right", "middle", "random", "stride"])
@@ -292,8 +316,10 @@ class Gen:
                     self.remove(st, k)
                 elif x < 0.70:
                     self.get(st, r.choice(pool))
-                elif x < 0.86:
+                elif x < 0.80:
                     self.scan(st, pool)
+                elif x < 0.86:
+                    self.phantom(st, pool)
                 elif x < 0.92:
                     self.iscan(st, pool)
                 elif x < 0.94:
